@@ -133,6 +133,12 @@ func (sc *specCtx) trT(x *core.Sexp) (string, types.Type) {
 		}
 		sc.fail("fnid: unknown function %s", args[0])
 		return "0", nil
+	case "clofn": // the function a closure value runs, comparable with (fnid key)
+		if len(args) != 1 {
+			sc.fail("clofn takes one argument")
+			return "0", nil
+		}
+		return "(cloFn " + sc.tr(args[0]) + ")", types.Typ[types.Int]
 	case "old":
 		if len(args) != 1 {
 			sc.fail("old takes one argument")
